@@ -3,7 +3,7 @@
 # Confirms a seeded change in a scratch copy: builds, suite passes with it, demo fails with it and passes without it;
 # then runs every check against the changed copy. Removes the copy.
 set -u
-export GOFLAGS=-mod=mod GOPROXY=off GOSUMDB=off GOTOOLCHAIN=local GOWORK=off
+export GOFLAGS="-mod=mod -trimpath" GOPROXY=off GOSUMDB=off GOTOOLCHAIN=local GOWORK=off
 D=$(readlink -f "$1"); P=${2:-}
 S=$(mktemp -d /tmp/cvss-seed.XXXXXX); trap 'rm -rf "$S"' EXIT
 rsync -a --exclude .git /repo/ "$S/repo/"; mkdir -p "$S/verif/evidence"; cp /verif/known_findings.txt "$S/verif/"
